@@ -489,6 +489,8 @@ class Driver:
         if c.modifies is None:
             return
         p.ok_path('frame', f'fields outside modifies are checked ({when})')
+        if any(getattr(rec.get('__shape__'), 'closed', False) for rec in p.pre_heap.values()):
+            p.ok_path('frame', 'reads only the declared fields')
         allowed = set()
         for path in c.modifies:
             parts = path.split('.')
@@ -497,6 +499,13 @@ class Driver:
                 v = p.heap[v.oid][q] if isinstance(v, SObj) else None
             if isinstance(v, SObj):
                 allowed.add((v.oid, parts[-1]))
+        for oid, rec in p.heap.items():
+            pre = p.pre_heap.get(oid)
+            if pre is None or pre.get('__shape__') is None:
+                continue
+            for fld in rec:
+                if fld not in pre and not fld.startswith('__') and (oid, fld) not in allowed:
+                    p.prove(False, 'frame', f'{pre.get("__class__", "?").split(":")[-1]}.{fld} is not written ({when})', None, detail='new attribute stored on an object outside modifies')
         for oid, rec in p.pre_heap.items():
             sh = rec.get('__shape__')
             for fld, old in rec.items():
@@ -547,7 +556,7 @@ def _spec_mod_lookup(orig):
         if isinstance(mod, _FakeMod):
             if name in S.SPECFUNCS:
                 return SSpecFn(S.SPECFUNCS[name])
-            if name in ('implies', 'iff', 'ev', 'set_of', 'forall'):
+            if name in ('implies', 'iff', 'ev', 'set_of', 'forall', 'ext'):
                 return SBuiltin('spec.' + name)
             v = getattr(mod.pymod, name, None)
             if isinstance(v, S.SpecFunc):
